@@ -55,7 +55,7 @@ def pool_file(k, ctx):
 
 
 ALL_METHODS = sorted(set(ops.METHODS_3D_READER + ops.METHODS_2D_READER))
-EMU_METHODS = sorted(set(ops.METHODS_EMU_3D + ["trace", "header"]))
+EMU_METHODS = sorted(set(ops.METHODS_EMU_3D + ["trace", "header", "attributes"]))
 
 
 class Executor:
